@@ -498,7 +498,8 @@ theorem C06_assignment_exact {sp : Space} (hsp : SpaceOK sp) {s : State} (h : Re
 /-- `a.cell = None` on a mobile agent, after any history: always accepted; the agent reports no cell and is in no list,
     every list is the old one without the agent, nobody else is touched.  `FixedAgent`: `a.cell = space[c]` is refused with
     "Cannot move agent in FixedCell" iff the agent has ever been placed (also after its `remove()`), else with "Cell is
-    full" iff the cell holds as many agents as its capacity `n`, else the agent is appended to the cell's list. -/
+    full" iff the cell holds as many agents as its capacity `n`, and accepted iff neither applies (no third refusal): then
+    the agent is appended to the cell's list. -/
 theorem C06_unplace_and_fixed_exact {sp : Space} (hsp : SpaceOK sp) {s : State} (h : Reachable sp s) (a : Aid) (k : AKind)
     (hk : s.kinds[a]? = some k) :
     (k ≠ .fixed →
@@ -510,6 +511,8 @@ theorem C06_unplace_and_fixed_exact {sp : Space} (hsp : SpaceOK sp) {s : State} 
       ((step sp s (.setCell a (some c))).2 = .err .fixed ↔ s.cellOf a ≠ none) ∧
       ((step sp s (.setCell a (some c))).2 = .err .full ↔
         s.cellOf a = none ∧ ∃ n, sp.cap c = some n ∧ (s.occ c).length = n) ∧
+      ((step sp s (.setCell a (some c))).2 = .ok ↔
+        s.cellOf a = none ∧ ¬ ∃ n, sp.cap c = some n ∧ (s.occ c).length = n) ∧
       ((step sp s (.setCell a (some c))).2 ≠ .ok → (step sp s (.setCell a (some c))).1 = s) ∧
       ((step sp s (.setCell a (some c))).2 = .ok →
         (step sp s (.setCell a (some c))).1.cellOf a = some c ∧
@@ -556,7 +559,8 @@ theorem C06_unplace_and_fixed_exact {sp : Space} (hsp : SpaceOK sp) {s : State} 
       · have hf' : fullFor sp s c = false := by simpa using hf
         have hn : ¬ ∃ n, sp.cap c = some n ∧ (s.occ c).length = n := fun hx => hf (hff.mpr hx)
         simp only [hf', Bool.false_eq_true, if_false]
-        refine ⟨by simp, ⟨fun hx => by simp at hx, fun hx => absurd hx.2 hn⟩, fun hx => by simp at hx, fun _ => ?_⟩
+        refine ⟨by simp, ⟨fun hx => by simp at hx, fun hx => absurd hx.2 hn⟩, ⟨fun _ => ⟨trivial, hn⟩, fun _ => trivial⟩,
+          fun hx => by simp at hx, fun _ => ?_⟩
         refine ⟨by simp [place, upd_same], by simp [place, upd_same], fun c' hc' => ?_, fun b hb => ?_⟩
         · simp only [place, upd_other _ _ _ hc']
         · simp only [place, upd_other _ _ _ hb]
